@@ -48,7 +48,7 @@ fn base(rng: &mut Rng, b: u64) -> ConnScenario {
         ..Default::default()
     };
     // odd but well-formed locales
-    client.locale = (*rng.pick(&["de_DE", "de_DE", "", "x", "日本", "en_US_POSIX_and_more"])).to_string();
+    client.locale = (*rng.pick(&["de_DE", "de_DE", "", "x", "日本", "en_US_POSIX_and_more", "_US", "_", "de_", "fil_ph", "日本_JP"])).to_string();
     ConnScenario {
         seed: rng.next_u64(),
         cfg: ConnCfg { secret, expiry: None, max_frame: None, client_addr },
